@@ -40,6 +40,8 @@ type Contract struct {
 	AssertAts  []AssertAt
 	Opts       map[string]string
 	Readonly   []string
+	Reads      []string // for pure: heap roots the result depends on; ["none"] = argument values only
+	HasReads   bool
 	File       string
 	Line       int
 	UsedExtern bool
@@ -71,6 +73,7 @@ type Axiom struct {
 }
 
 type ContractDB struct {
+	GhostFields map[string]bool
 	Funcs   map[string]*Contract
 	Specs   map[string]*SpecFunc
 	Lemmas  map[string]*Lemma
@@ -96,6 +99,12 @@ func (db *ContractDB) LoadContractFile(path, pkgPath string) error {
 		return err
 	}
 	db.Sources = append(db.Sources, path)
+	if db.GhostFields == nil {
+		db.GhostFields = map[string]bool{}
+	}
+	for _, m := range regexp.MustCompile(`\.(ghost_[A-Za-z0-9_]+)`).FindAllStringSubmatch(string(data), -1) {
+		db.GhostFields[m[1]] = true
+	}
 	type rawClause struct {
 		text string
 		line int
@@ -204,6 +213,14 @@ func (db *ContractDB) LoadContractFile(path, pkgPath string) error {
 			}
 			cur.Pure = true
 			cur.HasMod = true
+			if w, r := splitWord(rest); w == "reads" {
+				cur.HasReads = true
+				for _, x := range strings.Split(r, ",") {
+					if x = strings.TrimSpace(x); x != "" {
+						cur.Reads = append(cur.Reads, x)
+					}
+				}
+			}
 		case "readonly":
 			if cur != nil {
 				cur.Readonly = append(cur.Readonly, strings.Fields(rest)...)
